@@ -125,6 +125,7 @@ REVERTS = [
     ("minimum searches over k must go beyond the number of edges when constraints", ["C03", "C04", "C09"]),
     ("path-length and edge-position variables must not be integer", ["C10"]),
     ("MinSetCover must not drop a selected subset", ["C15"]),
+    ("kMinPathError slack bound must account for path-length factors below 1", ["C08"]),
 ]
 
 
